@@ -197,8 +197,12 @@ theorem Inv.frame {c : Cfg} {s0 s s' : St} {P : Arg → Holder → Prop} (i : In
 /-- the assumptions about the static data: names come before files, paths are clean -/
 structure CfgOK (c : Cfg) (s0 : St) : Prop where
   names : ∀ a, (c.namesOf a).isEmpty = true → (c.filesOf a).isEmpty = true
-  cleanF : ∀ a, ∀ f ∈ c.filesOf a, NoTrailingSlash f
+  /-- the names an argument refers to do not end in a separator, except that the raw spelling
+  `g/` of an output may stand next to its cleaned form `g` (what `getLogicalFileNames` returns) -/
+  cleanF : ∀ a, FilesWF (c.filesOf a)
   cleanD : ∀ d ∈ s0.disk, NoTrailingSlash d.path
+  /-- walked paths have no doubled separator -/
+  noDbl : ∀ d ∈ s0.disk, NoDbl d.path
   /-- a restart rebuilds the tables the fork started with -/
   init : c.initArgs = s0.fileArgs ∧ c.initPost = s0.postNodes
 
@@ -210,15 +214,14 @@ theorem refs_nonempty {c : Cfg} {a : Arg} {p : Path} (h : refs c a p = true) : (
     simp [hf] at h
 
 theorem refs_mono {c : Cfg} {a : Arg} {d k : Path} (hd : NoTrailingSlash d) (hk : NoTrailingSlash k)
-    (hf : ∀ f ∈ c.filesOf a, NoTrailingSlash f) (hin : pathIsInside d k = true)
+    (hdd : NoDbl d) (hkd : NoDbl k)
+    (hf : FilesWF (c.filesOf a)) (hin : pathIsInside d k = true)
     (hr : refs c a d = true) : refs c a k = true := by
   unfold refs at *
-  rw [anyOverlap_iff' [d] _ (by simpa using hd) hf] at hr
-  rw [anyOverlap_iff' [k] _ (by simpa using hk) hf]
-  obtain ⟨n, hn, f, hfm, hrel⟩ := hr
-  simp at hn
-  subst hn
-  exact ⟨k, by simp, f, hfm, related_mono hin hrel⟩
+  rw [refsWF_iff hd hdd hf] at hr
+  rw [refsWF_iff hk hkd hf]
+  obtain ⟨f, hfm, hc, hrel⟩ := hr
+  exact ⟨f, hfm, hc, related_mono hin hrel⟩
 
 theorem Unref.mono {c : Cfg} {a : Arg} {d1 d2 : List DiskEnt} (h : Unref c d1 a) (hs : ∀ d ∈ d2, d ∈ d1) :
     Unref c d2 a := fun d hm ht => h d (hs d hm) ht
@@ -395,7 +398,7 @@ theorem Inv.killCore {c : Cfg} {s0 s : St} (ok : CfgOK c s0) (i : Inv c s0 s) (e
       obtain ⟨k, ⟨e, ⟨hes, hempty⟩, rfl⟩, hin⟩ := hk
       obtain ⟨⟨d', hd', hp'⟩, hargs⟩ := i.cache es he e hes
       have hrk : refs c a e.path = true :=
-        refs_mono (ok.cleanD d (i.sub d hd)) (hp' ▸ ok.cleanD d' hd') (ok.cleanF a) hin hr
+        refs_mono (ok.cleanD d (i.sub d hd)) (hp' ▸ ok.cleanD d' hd') (ok.noDbl d (i.sub d hd)) (hp' ▸ ok.noDbl d' hd') (ok.cleanF a) hin hr
       have hnd : ¬ InDom s a := by
         intro hdm
         have := hargs a hdm hrk
